@@ -116,12 +116,28 @@ def run(prog, rep, tier='quick'):
             ret = calls[0]['ret']
             ins = [e for e in itp.events if e[0] == 'insert' and e[6] == f.qname]
             ok_ins = False
+
+            def is_one(raw):
+                if isinstance(raw, Const) and isinstance(raw.v, (int, float, complex)) and not isinstance(raw.v, bool):
+                    return raw.v == 1
+                if isinstance(raw, Const) and isinstance(raw.v, (list, tuple)) and len(raw.v) == 1:
+                    return raw.v[0] == 1
+                if isinstance(raw, Tup) and len(raw.items) == 1:
+                    return is_one(raw.items[0])
+                if isinstance(raw, Num) and raw.role == 'ones' and raw.shape in ((Aff(1),), ()):
+                    return True
+                return False
             if ins and isinstance(ret, Tup):
                 e = ins[0]
                 pos, val, arr0 = e[2], e[4], e[5]
                 raw = e[7]
-                one = isinstance(raw, Const) and isinstance(raw.v, (int, float, complex)) and raw.v == 1
-                ok_ins = isinstance(pos, Const) and pos.v == 0 and one and arr0.uid == ret.items[0].uid
+                ok_ins = isinstance(pos, Const) and pos.v == 0 and is_one(raw) and arr0.uid == ret.items[0].uid
+            elif isinstance(ret, Tup):
+                # the same vector assembled by concatenation: [1] ++ a
+                for e in itp.events:
+                    if e[0] == 'concat' and e[3] == f.qname and len(e[2]) == 2 and is_one(e[2][0]) \
+                            and getattr(e[2][1], 'uid', None) == ret.items[0].uid:
+                        ok_ins = True
             if ok_ins:
                 rep.proved('burg', f.qname, 'A = [1, a] [%s]' % ctx, 'leading one inserted at index 0 of the Burg coefficients', where)
             else:
